@@ -825,6 +825,7 @@ func runC17(c *Ctx, tier string) {
 		}
 	}
 	runOneCommitPerRequest(c, "C17-A1")
+	runReadResultsNilTested(c, "C17-M1")
 }
 
 func init() {
